@@ -95,6 +95,38 @@ func observeLoad(tp *onnx.TensorProto) (obs string) {
 	return "(OOk [" + tval(out["w"]) + "])"
 }
 
+// the same proto as the `value` attribute of a Constant node (always named "c", output always "y":
+// whatever is remembered per node or output name from an earlier model would show)
+func observeConstant(tp *onnx.TensorProto) (obs string) {
+	defer func() {
+		if r := recover(); r != nil {
+			obs = "OPanic"
+		}
+	}()
+	mp := &onnx.ModelProto{
+		IrVersion:   7,
+		OpsetImport: []*onnx.OperatorSetIdProto{{Version: 13}},
+		Graph: &onnx.GraphProto{
+			Name:   "g",
+			Node:   []*onnx.NodeProto{{Name: "c", OpType: "Constant", Output: []string{"y"}, Attribute: []*onnx.AttributeProto{{Name: "value", Type: onnx.AttributeProto_TENSOR, T: proto.Clone(tp).(*onnx.TensorProto)}}}},
+			Output: []*onnx.ValueInfoProto{{Name: "y"}},
+		},
+	}
+	b, err := proto.Marshal(mp)
+	if err != nil {
+		return "(OErr EOther)"
+	}
+	m, err := gonnx.NewModelFromBytes(b)
+	if err != nil {
+		return "(OErr " + ekind(err) + ")"
+	}
+	out, err := m.Run(gonnx.Tensors{})
+	if err != nil {
+		return "(OErr " + ekind(err) + ")"
+	}
+	return "(OOk [" + tval(out["y"]) + "])"
+}
+
 type tinfo struct {
 	code  int32
 	width int
@@ -199,8 +231,11 @@ func genC12(dir, tier string, seed int64) {
 		"onnx.TensorFromProto on generated TensorProtos: 11 element types x {typed field, raw little-endian bytes} x shapes of rank 0..4 (extents 1..3) x element bit patterns (extremes, negatives, NaN payloads incl. signalling, -0, random); payload length perturbed (short by a byte / an element, long by a byte / an element, empty); dims with a zero or negative entry or one entry off; every other data_type code 0..20 and 99 with each typed field or raw populated or nothing populated; NaN payloads compared bit for bit", false, 500)
 	cwB := newCaseWriter(dir, "C12_load", hdr, opFooter,
 		"the same protos as the only initializer of a marshalled model whose declared output is that initializer: NewModelFromBytes(proto.Marshal(m)) then Run with no inputs", false, 500)
+	cwC := newCaseWriter(dir, "C12_constant", hdr, opFooter,
+		"the same protos as the `value` attribute of a Constant node (node name, output name and graph identical in every model) whose result is the declared output: NewModelFromBytes then Run", false, 500)
 	emit := func(tp *onnx.TensorProto, tag string) {
 		g := tprotoGallina(tp)
+		cwC.write(fmt.Sprintf("  {| pc_tp := %s; pc_obs := %s |}", g, observeConstant(tp)))
 		cwA.write(fmt.Sprintf("  {| pc_tp := %s; pc_obs := %s |}", g, observeDecode(proto.Clone(tp).(*onnx.TensorProto))))
 		cwB.write(fmt.Sprintf("  {| pc_tp := %s; pc_obs := %s |}", g, observeLoad(tp)))
 		count("variant", tag)
@@ -283,6 +318,27 @@ func genC12(dir, tier string, seed int64) {
 						bad[k]++
 					}
 					emit(mk(vals, raw, bad), "bad-dims")
+					// sign patterns that leave the product unchanged, and extents whose product wraps
+					if len(dims) >= 2 {
+						two := append([]int64{}, dims...)
+						i, j := r.Intn(len(two)), r.Intn(len(two)-1)
+						if j >= i {
+							j++
+						}
+						two[i], two[j] = -two[i], -two[j]
+						emit(mk(vals, raw, two), "bad-dims-two-negative")
+						all := append([]int64{}, dims...)
+						for q := range all {
+							all[q] = -all[q]
+						}
+						emit(mk(vals, raw, all), "bad-dims-all-negative")
+					}
+					if rep%4 == 0 {
+						wrap := [][]int64{{1 << 32, 1 << 32}, {1 << 62, 4}, {1 << 32, 1 << 31, 2}, {-(1 << 32), -(1 << 32)}, {math.MaxInt64, 2}, {math.MinInt64, 2}}
+						w := wrap[r.Intn(len(wrap))]
+						emit(mk(nil, nil, w), "bad-dims-wrapping-empty")
+						emit(mk(vals, raw, append(append([]int64{}, w...), dims...)), "bad-dims-wrapping")
+					}
 				}
 			}
 		}
@@ -311,5 +367,6 @@ func genC12(dir, tier string, seed int64) {
 	}
 	cwA.close()
 	cwB.close()
+	cwC.close()
 	_ = tensor.Float32
 }
